@@ -92,6 +92,11 @@ def handleG (o : Ops K) (c : Case) : Res := Id.run do
     return Res.propFalse s!"{call}: U({j},{j}) is zero" tags
   -- A and B on exit
   let equed := c.p "equed"
+  -- equed is an output of a factorizing call: one of the four letters, and N when no equilibration was asked for
+  if ¬ (equed == "N" ∨ equed == "R" ∨ equed == "C" ∨ equed == "B") then
+    return Res.propFalse s!"{call}: equed={equed} returned by a factorizing call (not one of N R C B; on entry it held {c.p "equed_in"})" tags
+  if c.pNat "equil" = 0 ∧ equed != "N" then
+    return Res.propFalse s!"{call}: Equil=NO but equed={equed} is returned (on entry it held {c.p "equed_in"})" tags
   if equed == "N" ∧ (firstDiff (c.raw "A.val") (c.raw "Ao.val")).isSome then
     return Res.propFalse s!"{call}: equed=N but A's values changed" tags
   if equed == "N" ∧ (firstDiff (c.raw "Bin") (c.raw "Bout")).isSome then
